@@ -21,10 +21,11 @@ fn analyze_number_of_iterations_to_break_less_than_guard(
   if guard_increment_amount <= 0 {
     return None;
   }
-  let difference = guarded_value - initial_guard_value;
-  let count =
-    difference / guard_increment_amount + ((difference % guard_increment_amount != 0) as i32);
-  Some(count)
+  // The distance may not fit into 32 bits; give up instead of computing a wrong trip count.
+  let difference = guarded_value.checked_sub(initial_guard_value)?;
+  difference
+    .checked_div(guard_increment_amount)?
+    .checked_add((difference.checked_rem(guard_increment_amount)? != 0) as i32)
 }
 
 fn analyze_number_of_iterations_to_break_guard(
@@ -42,17 +43,17 @@ fn analyze_number_of_iterations_to_break_guard(
     GuardOperator::LE => analyze_number_of_iterations_to_break_less_than_guard(
       initial_guard_value,
       guard_increment_amount,
-      guarded_value + 1,
+      guarded_value.checked_add(1)?,
     ),
     GuardOperator::GT => analyze_number_of_iterations_to_break_less_than_guard(
-      -initial_guard_value,
-      -guard_increment_amount,
-      -guarded_value,
+      initial_guard_value.checked_neg()?,
+      guard_increment_amount.checked_neg()?,
+      guarded_value.checked_neg()?,
     ),
     GuardOperator::GE => analyze_number_of_iterations_to_break_less_than_guard(
-      -initial_guard_value,
-      -guard_increment_amount,
-      -(guarded_value - 1),
+      initial_guard_value.checked_neg()?,
+      guard_increment_amount.checked_neg()?,
+      guarded_value.checked_sub(1)?.checked_neg()?,
     ),
   }
 }
@@ -87,8 +88,8 @@ pub(super) fn optimize(
     if let Expression::Variable(v) = e {
       if v.name.eq(basic_induction_variable_with_loop_guard_name) {
         // We simply want the final value of the basic_induction_variable_with_loop_guard_name.
-        let basic_induction_variable_with_loop_guard_final_value =
-          *initial_guard_value + *guard_increment_amount * num_of_loop_iterations;
+        let basic_induction_variable_with_loop_guard_final_value = initial_guard_value
+          .checked_add(guard_increment_amount.checked_mul(num_of_loop_iterations)?)?;
         return Some(vec![Statement::Binary(Binary {
           name: *n,
           operator: BinaryOperator::PLUS,
